@@ -10,8 +10,8 @@
      thread A   the holder of trimMutex: TrimOpenConns (doTrim) or ForceTrim
      thread B   the background loop's trim()
 
-   Both run the same atomic steps (TBegin / TSnap p / TSnapEnd / TSortEnd perm
-   / TSelect / TFinish) on their OWN snapshot, interleaved with each other and
+   Both run the same atomic steps (KBegin / KSnap p / KSnapEnd / KSortEnd perm
+   / KSelect / KFinish) on their OWN snapshot, interleaved with each other and
    with every other operation's critical section (BOp: the sequential step of
    Model.v; Protect/Unprotect block while a snapshot holds plk.RLock).
    ForceTrim: BForceRead reads connCount and computes target BEFORE it waits
@@ -69,7 +69,7 @@ Record c2 := mkC2 { c_s : state; c_a : thr; c_b : thr; c_fpend : option Z }.
 
 Definition c2init (cfg : config) : c2 := mkC2 (init cfg) t_init t_init None.
 
-Inductive tact := TBegin | TSnap (p : nat) | TSnapEnd | TSortEnd (perm : list nat) | TSelect | TFinish.
+Inductive tact := KBegin | KSnap (p : nat) | KSnapEnd | KSortEnd (perm : list nat) | KSelect | KFinish.
 
 (* thread ids: false = A (trimMutex holder), true = B (background loop) *)
 Inductive act2 := BOp (o : op) | BForceRead | BBeginForce | BAct (i : bool) (a : tact).
@@ -124,12 +124,12 @@ Definition take (t : thr) (r : list nat) (cands1 : list ent) (p : nat) (pi : pee
 Definition tstep (guard : bool) (cfg : config) (i : bool) (s : state) (t : thr) (a : tact)
   : option (state * thr * list ev2) :=
   match a with
-  | TBegin =>
+  | KBegin =>
       if negb (q_idle (t_ph t)) then None else
       if (c_low cfg =? 0) || (c_high cfg =? 0) || (count s <=? c_low cfg)
       then Some (s, t_init, [VBegin i false; VClosed i []])
       else Some (s, mkT false false (QSnap []) (now s - c_grace cfg) 0 (prot s) [] 0 [] [] [] 0 0, [VBegin i false])
-  | TSnap p =>
+  | KSnap p =>
       match t_ph t with
       | QSnap vis =>
           if memn p vis then None else
@@ -145,7 +145,7 @@ Definition tstep (guard : bool) (cfg : config) (i : bool) (s : state) (t : thr) 
                 if t_pass2 t then [] else [VSnap i p])
       | _ => None
       end
-  | TSnapEnd =>
+  | KSnapEnd =>
       match t_ph t with
       | QSnap _ =>
           if t_force t then Some (s, set_ph t QSort, if t_pass2 t then [] else [VSnapEnd i])
@@ -153,7 +153,7 @@ Definition tstep (guard : bool) (cfg : config) (i : bool) (s : state) (t : thr) 
           else Some (s, set_ph t QSort, [VSnapEnd i])
       | _ => None
       end
-  | TSortEnd perm =>
+  | KSortEnd perm =>
       match t_ph t with
       | QSort =>
           if forallb (fun e => memn (e_p e) perm) (t_cands t) then
@@ -163,7 +163,7 @@ Definition tstep (guard : bool) (cfg : config) (i : bool) (s : state) (t : thr) 
           else None
       | _ => None
       end
-  | TSelect =>
+  | KSelect =>
       match t_ph t with
       | QSel [] => Some (s, sel_exit t, [])
       | QSel (p :: r) =>
@@ -188,7 +188,7 @@ Definition tstep (guard : bool) (cfg : config) (i : bool) (s : state) (t : thr) 
           end
       | _ => None
       end
-  | TFinish =>
+  | KFinish =>
       match t_ph t with
       | QClose => Some (s, set_ph t QIdle, [VClosed i (t_sel t)])
       | _ => None
